@@ -29,6 +29,11 @@ Example C17_roundtrip_hyp :
                       (ABin Or (AVar "c") (ANot (AUniq ["x"; "y_1"])))).
 Proof. reflexivity. Qed.
 
+(* Go keywords and decimal numbers are ordinary names, also inside braces *)
+Example C17_roundtrip_hyp_kw :
+  wf_idents (ABin Impl (AUniq ["if"; "b"; "12"]) (AVar "for")).
+Proof. reflexivity. Qed.
+
 (* whitespace and comments: the tokenizer gives back the printed tokens *)
 Theorem C17_chars :
   forall lay a, wf_idents a -> tokenize (print_chars lay a) = print lay a.
@@ -82,29 +87,28 @@ Theorem C17_grammar : forall toks a, parse toks = Some a <-> DerTop toks a.
 Proof. exact parse_iff. Qed.
 Print Assumptions C17_grammar.
 
-(* REFUTED as stated: a stray "}" in operand position is read as a variable. *)
-Theorem C17_unbalanced_refuted :
-  exists toks a, parse toks = Some a /\ ~ balanced toks.
-Proof. exact unbalanced_refuted. Qed.
-Print Assumptions C17_unbalanced_refuted.
+(* unbalanced parentheses or braces give an error *)
+Theorem C17_unbalanced : forall toks a, parse toks = Some a -> balanced toks.
+Proof. exact parse_balanced. Qed.
+Print Assumptions C17_unbalanced.
 
-(* holds when the result only mentions real identifiers *)
-Theorem C17_unbalanced_partial :
-  forall toks a, parse toks = Some a -> wf_idents a -> balanced toks.
-Proof. exact unbalanced_partial. Qed.
-Print Assumptions C17_unbalanced_partial.
+Example C17_unbalanced_hyp :
+  parse [TLp; TId "a"; TAmp; TLb; TId "b"; TRb; TRp] =
+    Some (ABin And (AVar "a") (AUniq ["b"])).
+Proof. reflexivity. Qed.
 
-(* holds always: operand/operator alternation, parentheses balanced outside
-   brace groups, brace groups closed *)
+(* shape of accepted texts: operand/operator alternation, balanced
+   parentheses, brace groups of names separated by commas *)
 Theorem C17_shape : forall toks a, parse toks = Some a -> accept toks = true.
 Proof. exact parse_accept. Qed.
 Print Assumptions C17_shape.
 
-Example C17_unbalanced_hyp :
-  parse [TLp; TId "a"; TAmp; TLb; TId "b"; TRb; TRp] =
-    Some (ABin And (AVar "a") (AUniq ["b"])) /\
-  wf_idents (ABin And (AVar "a") (AUniq ["b"])).
-Proof. split; reflexivity. Qed.
+(* the variables of the result are the names of the text, in order: no
+   punctuation sign ever becomes a variable *)
+Theorem C17_names :
+  forall toks a, parse toks = Some a -> names_from a = tok_names toks.
+Proof. exact parse_names. Qed.
+Print Assumptions C17_names.
 
 (* trailing tokens: after a complete formula (not already ended by ";") any
    token except ; = | & - gives an error, i.e. identifiers ( ) { } , ^ > *)
@@ -143,42 +147,56 @@ Theorem C17_missing_left_operand :
 Proof. exact missing_left_operand. Qed.
 Print Assumptions C17_missing_left_operand.
 
+(* an operator followed by anything that cannot start an operand: another
+   operator, ")" "}" "," ">" "-", TBad *)
+Theorem C17_operator_then_stray :
+  forall pre o t rest,
+  operand_start t = false -> parse (pre ++ op_toks o ++ t :: rest) = None.
+Proof. exact operator_then_stray. Qed.
+Print Assumptions C17_operator_then_stray.
+
+(* the same at the beginning of the text and after "(" or "^" *)
+Theorem C17_stray_first :
+  forall t rest, operand_start t = false -> parse (t :: rest) = None.
+Proof. exact stray_first. Qed.
+Print Assumptions C17_stray_first.
+
+Theorem C17_open_then_stray :
+  forall pre t0 t rest,
+  t0 = TLp \/ t0 = TCaret -> operand_start t = false ->
+  parse (pre ++ t0 :: t :: rest) = None.
+Proof. exact open_then_stray. Qed.
+Print Assumptions C17_open_then_stray.
+
 Theorem C17_two_operators :
   forall pre post o1 o2, parse (pre ++ op_toks o1 ++ op_toks o2 ++ post) = None.
 Proof. exact two_operators. Qed.
 Print Assumptions C17_two_operators.
 
-(* ---- deviations from the documentation (findings) ---- *)
+(* ---- former deviations (fixed in gophersat), remaining particularities ---- *)
 
-(* REFUTED: round trip without the "no Go keyword in braces" side condition *)
-Theorem C17_roundtrip_keyword_refuted :
-  exists a, a = AUniq ["if"; "b"] /\
-            (forall lay, parse (print lay a) = None) /\
-            (parse [TId "if"; TAmp; TId "b"] = Some (ABin And (AVar "if") (AVar "b"))).
-Proof. exact roundtrip_keyword_refuted. Qed.
-Print Assumptions C17_roundtrip_keyword_refuted.
+Theorem C17_stray_operand_examples :
+  parse [TId "a"; TAmp; TComma] = None /\
+  parse [TId "a"; TBar; TRb] = None /\
+  parse [TId "a"; TAmp; TMinus] = None /\
+  parse [TId "a"; TEq; TGt] = None /\
+  parse [TMinus; TMinus; TGt; TId "a"] = None /\
+  parse [TRb] = None.
+Proof. exact stray_operand_examples. Qed.
+Print Assumptions C17_stray_operand_examples.
 
-(* REFUTED: "a missing operand gives an error" when a stray , } - > follows *)
-Theorem C17_stray_operand_refuted :
-  parse [TId "a"; TAmp; TComma] = Some (ABin And (AVar "a") (AVar ",")) /\
-  parse [TId "a"; TBar; TRb] = Some (ABin Or (AVar "a") (AVar "}")) /\
-  parse [TId "a"; TAmp; TMinus] = Some (ABin And (AVar "a") (AVar "-")) /\
-  parse [TId "a"; TEq; TGt] = Some (ABin Equiv (AVar "a") (AVar ">")) /\
-  parse [TMinus; TMinus; TGt; TId "a"] = Some (ABin Impl (AVar "-") (AVar "a")).
-Proof. exact stray_operand_refuted. Qed.
-Print Assumptions C17_stray_operand_refuted.
-
-Theorem C17_brace_quirks :
+Theorem C17_brace_examples :
   parse [TLb; TRb] = None /\
-  parse [TLb; TRb; TRb] = Some (AUniq ["}"]) /\
+  parse [TLb; TRb; TRb] = None /\
   parse [TLb; TId "a"; TComma; TRb] = None /\
-  parse [TLb; TId "a"; TComma; TRb; TRb] = Some (AUniq ["a"; "}"]) /\
-  parse [TLb; TLp; TRb] = Some (AUniq ["("]) /\
-  parse [TLb; TComma; TRb] = Some (AUniq [","]) /\
+  parse [TLb; TId "a"; TComma; TRb; TRb] = None /\
+  parse [TLb; TLp; TRb] = None /\
+  parse [TLb; TComma; TRb] = None /\
   parse [TLb; TId "a"; TId "b"; TRb] = None /\
-  parse [TLb; TId "if"; TComma; TId "b"; TRb] = None.
-Proof. exact brace_quirks. Qed.
-Print Assumptions C17_brace_quirks.
+  parse [TLb; TId "if"; TComma; TId "b"; TRb] = Some (AUniq ["if"; "b"]) /\
+  parse [TId "if"; TAmp; TId "1"] = Some (ABin And (AVar "if") (AVar "1")).
+Proof. exact brace_examples. Qed.
+Print Assumptions C17_brace_examples.
 
 Theorem C17_paren_semi :
   parse [TLp; TId "a"; TSemi; TId "b"; TRp] = Some (ABin Seq (AVar "a") (AVar "b")) /\
@@ -188,7 +206,8 @@ Theorem C17_paren_semi :
 Proof. exact paren_semi. Qed.
 Print Assumptions C17_paren_semi.
 
-(* ---- texts checked against the real bf.Parse (go1.23, unchanged /repo):
+(* ---- texts checked against the real bf.Parse (go1.23, /repo at d42b61a "the
+        formula parser took stray punctuation signs for variable names"):
         same error/success and same truth table ---- *)
 
 Example go_01 : parse_string "a" = Some (AVar "a"). Proof. reflexivity. Qed.
@@ -203,14 +222,14 @@ Example go_08 : parse_string "a b" = None. Proof. reflexivity. Qed.
 Example go_09 : parse_string "a )" = None. Proof. reflexivity. Qed.
 Example go_10 : parse_string "( a" = None. Proof. reflexivity. Qed.
 Example go_11 : parse_string "{ }" = None. Proof. reflexivity. Qed.
-Example go_12 : parse_string "{ } }" = Some (AUniq ["}"]). Proof. reflexivity. Qed.
+Example go_12 : parse_string "{ } }" = None. Proof. reflexivity. Qed.
 Example go_13 : parse_string "{a,}" = None. Proof. reflexivity. Qed.
 Example go_14 : parse_string "{a b}" = None. Proof. reflexivity. Qed.
 Example go_15 : parse_string "{a,b,c}" = Some (AUniq ["a"; "b"; "c"]). Proof. reflexivity. Qed.
-Example go_16 : parse_string "{if, b}" = None. Proof. reflexivity. Qed.
-Example go_17 : parse_string "a & ," = Some (ABin And (AVar "a") (AVar ",")). Proof. reflexivity. Qed.
-Example go_18 : parse_string "a | }" = Some (ABin Or (AVar "a") (AVar "}")). Proof. reflexivity. Qed.
-Example go_19 : parse_string "- -> a" = Some (ABin Impl (AVar "-") (AVar "a")). Proof. reflexivity. Qed.
+Example go_16 : parse_string "{if, b}" = Some (AUniq ["if"; "b"]). Proof. reflexivity. Qed.
+Example go_17 : parse_string "a & ," = None. Proof. reflexivity. Qed.
+Example go_18 : parse_string "a | }" = None. Proof. reflexivity. Qed.
+Example go_19 : parse_string "- -> a" = None. Proof. reflexivity. Qed.
 Example go_20 : parse_string "a - > b" = Some (ABin Impl (AVar "a") (AVar "b")). Proof. reflexivity. Qed.
 Example go_21 : parse_string "a -> b -> c" = Some (ABin Impl (AVar "a") (ABin Impl (AVar "b") (AVar "c"))).
 Proof. reflexivity. Qed.
@@ -238,3 +257,14 @@ Example go_37 : parse_string "a ; b ;" = Some (ABin Seq (AVar "a") (AVar "b")). 
 Example go_38 : parse_string "(a ; b ;)" = None. Proof. reflexivity. Qed.
 Example go_39 : parse_string "a = = b" = None. Proof. reflexivity. Qed.
 Example go_40 : parse_string "a1_ & _b" = Some (ABin And (AVar "a1_") (AVar "_b")). Proof. reflexivity. Qed.
+Example go_41 : parse_string "a & -" = None. Proof. reflexivity. Qed.
+Example go_42 : parse_string "a = >" = None. Proof. reflexivity. Qed.
+Example go_43 : parse_string "{ ( }" = None. Proof. reflexivity. Qed.
+Example go_44 : parse_string "{a,}}" = None. Proof. reflexivity. Qed.
+Example go_45 : parse_string "1 & a" = Some (ABin And (AVar "1") (AVar "a")). Proof. reflexivity. Qed.
+Example go_46 : parse_string "{1, 23}" = Some (AUniq ["1"; "23"]). Proof. reflexivity. Qed.
+Example go_47 : parse_string "08 | a" = Some (ABin Or (AVar "08") (AVar "a")). Proof. reflexivity. Qed.
+Example go_48 : parse_string "12a" = None. Proof. reflexivity. Qed.
+Example go_49 : parse_string "a & #" = None. Proof. reflexivity. Qed.
+Example go_50 : parse_string "^ )" = None. Proof. reflexivity. Qed.
+Example go_51 : parse_string "x_1 -> 23;" = Some (ABin Impl (AVar "x_1") (AVar "23")). Proof. reflexivity. Qed.
